@@ -21,7 +21,7 @@ def take_chain_matrix(tier):
     sorts = {"id": [[False, col("id")]], "-id": [[True, col("id")]], "a,id": [[False, col("a")], [False, col("id")]],
              "-a,id": [[True, col("a")], [False, col("id")]], "a,-id": [[False, col("a")], [True, col("id")]],
              "-a,-id": [[True, col("a")], [True, col("id")]], "k,id": [[False, col("k")], [False, col("id")]], "-k,-id": [[True, col("k")], [True, col("id")]]}
-    takes1 = [(None, 5), (2, 6), (3, None)] if tier != "quick" else [(None, 5), (2, 6)]
+    takes1 = [(None, 5), (2, 6), (3, None)]          # incl. an open-ended take: it emits an OFFSET without closing the SELECT by a LIMIT
     takes2 = [(None, 2), (2, 3), (2, None)] if tier != "quick" else [(None, 2), (2, 3)]
     mids = {"none": [], "derive": [{"t": "derive", "items": [["x", ["bin", "+", col("a"), ["lit", 1]]]]}],
             "filter": [{"t": "filter", "cond": ["bin", ">", col("id"), ["lit", 1]]}]}
